@@ -1245,7 +1245,7 @@ func oneTable(seed int64) tableResult {
 }
 
 func Run(args []string) {
-	rep := vh.NewReport(command, "random type tables as in sem-rules (4 named types, root of depth<=3, recursive references, nullable, additionalProperties, scalar rules with odd number spellings) where one scalar position in five carries an or rule with 2-3 alternatives: a type name (1/3) or an inline scalar type, with min/max or minLength/maxLength half of the time; the example token is one that fits the first satisfiable scalar alternative; JSight text -> real AddType/Check/Validate; for the model every inline alternative is a fresh environment entry anonN and the node a reference listing them -> Lean VA.validateT (driver semc); 12 documents per table: 5 sampled (through a random alternative), 5 sampled then mutated, 2 random, tokens from pools of spellings; tables refused by Check are skipped and counted by error code; nontrivial = an or rule is reachable from the root; one number node in three takes bounds from a pool of negative fractions sharing the integer part; one absent exclusive flag in three is written out as exclusiveMinimum/exclusiveMaximum: false; half of the sampled numbers sit exactly on a bound or one last-digit unit / one tenth of it below or above, spelled as a random RFC 8259 numeral (optional minus also on zero, trailing zeros, exponent e/E with optional sign -3..3, decimal point moved: 15 = 1.5E1 = 0.15e+2 = 150E-1; zero-integer-part-exponent spellings 0e1 are generated and classed K-C10-zeroexp); string bounds 0..4 with half of the sampled strings at decoded length n-1, n, n+1 from a pool with simple escapes, \\uXXXX incl. surrogate pairs and a lone surrogate, and multi-byte UTF-8 (length = bytes of the unquoted value per the Lean Unquote model; the request carries a stand-in string of that length); a difference on a table where a non-nullable reference position whose names all end in a cycle of pure references (@a = @a: no alternative at all) is reachable from the root carries the class K-C09-cycle")
+	rep := vh.NewReport(command, "random type tables as in sem-rules (4 named types, root of depth<=3, recursive references, nullable, additionalProperties, scalar rules with odd number spellings) where one scalar position in five carries an or rule with 2-3 alternatives: a type name (1/3) or an inline scalar type, with min/max or minLength/maxLength half of the time; the example token is one that fits the first satisfiable scalar alternative; JSight text -> real AddType/Check/Validate; for the model every inline alternative is a fresh environment entry anonN and the node a reference listing them -> Lean VA.validateT (driver semc); 12 documents per table: 5 sampled (through a random alternative), 5 sampled then mutated, 2 random, tokens from pools of spellings; tables refused by Check are skipped and counted by error code; nontrivial = an or rule is reachable from the root; one number node in three takes bounds from a pool of negative fractions sharing the integer part; one absent exclusive flag in three is written out as exclusiveMinimum/exclusiveMaximum: false; half of the sampled numbers sit exactly on a bound or one last-digit unit / one tenth of it below or above, spelled as a random RFC 8259 numeral (optional minus also on zero, trailing zeros, exponent e/E with optional sign -3..3, decimal point moved: 15 = 1.5E1 = 0.15e+2 = 150E-1; zero-integer-part-exponent spellings 0e1 are generated and classed K-C10-zeroexp); string bounds 0..4 with half of the sampled strings at decoded length n-1, n, n+1 from a pool with simple escapes, \\uXXXX incl. surrogate pairs and a lone surrogate, and multi-byte UTF-8 (length = bytes of the unquoted value per the Lean Unquote model; the request carries a stand-in string of that length); document string scalars are drawn every second time from a pool of 32 strings whose content looks like another JSON kind (\"1.5\", \"a.b\", \"true\", \"null\", \"{}\", \"1e5\", \"\", \" \", the same with \\u escapes), also as the value of the extra member under every additionalProperties mode one time in four; a case whose document holds such a string is validated 8 times and every repeat must give the model verdict (UNSTABLE otherwise); a difference on a table where a non-nullable reference position whose names all end in a cycle of pure references (@a = @a: no alternative at all) is reachable from the root carries the class K-C09-cycle")
 	initStrLen()
 	r := vh.NewRand(salt)
 	nTables := vh.Pick(3000, 100000)
